@@ -364,6 +364,13 @@ def decl_module(d, ops_wanted):
     if inner == "f32" and info.has_validation and not info.custom:
         # thorough tier: ALL 2^32 bit patterns through the constructor, summarised
         arms.append(SWEEP_F32)
+    if "Arbitrary" in info.traits and d.family() == "any" and not info.has_validation:
+        # every way Arbitrary hands out a value: arbitrary_take_rest must be the constructor applied to the inner
+        # type's arbitrary_take_rest
+        arms.append('"arb_rest" => { let a = arg.to_string(); watchdog(move || guard(|| { let bytes = bytes_arg(&a); '
+                    'let got = <TT as arbitrary::Arbitrary>::arbitrary_take_rest(arbitrary::Unstructured::new(&bytes)).ok().map(|v| v.into_inner()); '
+                    'let want = <Inner as arbitrary::Arbitrary>::arbitrary_take_rest(arbitrary::Unstructured::new(&bytes)).ok().map(|x| TT::new(x).into_inner()); '
+                    'format!("same={} got={}", b(match (&got, &want) { (Some(p), Some(q)) => p.same(q), (None, None) => true, _ => false }), got.map(|g| g.show()).unwrap_or("err".to_string())) })) },')
     if "Arbitrary" in info.traits:
         arms.append('"arb" => { let a = arg.to_string(); watchdog(move || guard(|| { let bytes = bytes_arg(&a); let mut u = arbitrary::Unstructured::new(&bytes); match <TT as arbitrary::Arbitrary>::arbitrary(&mut u) { Ok(v) => ok(v.into_inner()), Err(_) => "arb_err".to_string() } })) },')
         if inner in INT_TYPES:
